@@ -364,7 +364,9 @@ PROPS["C19"] = dict(
          "and padded-inverted range as numbers + width check), C08 texts, C09 (x.f2r), C11 (x.padrange), C10 (x.pad widths -1..4096, "
          "x.padsize tokens), C03/C04 (x.seq: components, width, len, start/end, String, frame paths for 9 frame numbers, index "
          "paths), and generated directories of 1-4 uniformly zero-padded multi-frame sequences + frame-less / hidden files + "
-         "sub-directories (x.scan over the 4 option subsets x 2 styles, x.find over 8 pattern forms), each materialised by each "
+         "sub-directories, basenames that themselves hold pad characters / range-like text / printf tokens, frame numbers beyond "
+         "32 bits, and (one op in four) a directory whose own name holds pad characters, digits, dots or a space "
+         "(x.scan over the 4 option subsets x 2 styles, x.find over 8 pattern forms), each materialised by each "
          "implementation in its own temp directory. The property fails on an op when a field inside the domain (numbers within a "
          "long, >= 1 frame, sequence has a basename / extension / range) differs between the two real implementations; "
          "non-trivial = any distinct op, class = op x in/outside the domain",
